@@ -779,7 +779,7 @@ def run_check(res, tier, replay, d):
         corpus = os.path.join(VERIF, "corpus", "C14.sessions.json")
         if os.path.exists(corpus):
             sessions += json.load(open(corpus))["sessions"]
-        n = 1000 if tier == "thorough" else 40
+        n = 1500 if tier == "thorough" else 40
         hi = 25
         rng = random.Random(seed() * 7919 + (1 if tier == "thorough" else 0))
         for i in range(n):
